@@ -1,5 +1,6 @@
 // Instrumented TU: the real rcu_radixtree over a simulated allocator.
 #include <new>
+#include <memory>
 #include <frg/rcu_radixtree.hpp>
 #include "sut.hpp"
 
@@ -21,7 +22,12 @@ using Tree = frg::rcu_radixtree<SVal, SimAlloc>;
 struct PlainVal { uint64_t key, seq, check; uint64_t RVal::*pm; };
 using PTree = frg::rcu_radixtree<PlainVal, SimAlloc>;
 // mode 3: an over-aligned value type (the allocator then hands out 64-byte aligned blocks)
-struct alignas(64) AVal : RVal { AVal(uint64_t k, uint64_t s, uint64_t c) : RVal{k, s, c} {} };
+// ... which also overloads unary operator& (generic code has to use std::addressof / placement addresses, not &value)
+struct alignas(64) AVal : RVal {
+	AVal(uint64_t k, uint64_t s, uint64_t c) : RVal{k, s, c} {}
+	AVal *operator&() { radix_evil_addr(); return nullptr; }
+	const AVal *operator&() const { radix_evil_addr(); return nullptr; }
+};
 using ATree = frg::rcu_radixtree<AVal, SimAlloc>;
 using QTree = frg::rcu_radixtree<RVal *, SimAlloc>; // mode 2: the value is a raw pointer to a record the user owns
 static int g_mode = 0;
@@ -40,7 +46,7 @@ static void iterate(T *t, void (*cb)(void *, void *), void *ctx) {
 	for (auto it = t->begin(); it != t->end();) {
 		auto here = it;
 		if (!(here == it) || here != it) cb(nullptr, ctx); // a copy must compare equal
-		cb((flip = !flip) ? (void *)&*it : (void *)it.operator->(), ctx);
+		cb((flip = !flip) ? (void *)std::addressof(*it) : (void *)it.operator->(), ctx);
 		++it;
 		if (here == it) cb(nullptr, ctx);                  // the next position must differ from the previous one
 	}
